@@ -15,15 +15,15 @@ import (
 )
 
 type UnitSpec struct {
-	Fn         string   `json:"fn"`
-	Mode       string   `json:"mode"` // contract | sweep
-	Tags       []string `json:"tags,omitempty"`       // keep only obligations carrying one of these tags (contract mode)
-	Kinds      []string `json:"kinds,omitempty"`      // keep only these kinds
-	AllUntagged bool    `json:"all_untagged,omitempty"` // also keep untagged obligations
-	Locks      bool     `json:"locks,omitempty"`
-	NonNil     []string `json:"nonnil,omitempty"` // parameters assumed non-nil (sweep mode)
-	AllocBound string   `json:"alloc_bound,omitempty"`
-	Inline     []string `json:"inline,omitempty"` // callees to inline although they have contracts
+	Fn          string   `json:"fn"`
+	Mode        string   `json:"mode"`                   // contract | sweep
+	Tags        []string `json:"tags,omitempty"`         // keep only obligations carrying one of these tags (contract mode)
+	Kinds       []string `json:"kinds,omitempty"`        // keep only these kinds
+	AllUntagged bool     `json:"all_untagged,omitempty"` // also keep untagged obligations
+	Locks       bool     `json:"locks,omitempty"`
+	NonNil      []string `json:"nonnil,omitempty"` // parameters assumed non-nil (sweep mode)
+	AllocBound  string   `json:"alloc_bound,omitempty"`
+	Inline      []string `json:"inline,omitempty"` // callees to inline although they have contracts
 }
 
 type UnitResult struct {
@@ -71,7 +71,7 @@ func (eng *Engine) runUnit(us UnitSpec) (res *UnitResult) {
 			case specErr:
 				res.Unsupported = "contract error: " + e.msg
 			default:
-				res.Unsupported = fmt.Sprintf("engine panic: %v\n%s", r, trunc(string(debug.Stack()), 3000))
+				res.Unsupported = fmt.Sprintf("engine panic: %v\n%s", r, trunc(string(debug.Stack()), 6000))
 			}
 		}
 	}()
@@ -127,6 +127,9 @@ func sortedKeysB(m map[string]bool) []string {
 }
 
 func (o *Obligation) query() []string {
+	if o.Raw != nil {
+		return o.Raw
+	}
 	lines := append([]string{}, prelude("ALL")...)
 	lines = append(lines, o.sc.lines[:o.Prefix]...)
 	if o.IsSat {
@@ -229,7 +232,7 @@ func summarize(res []*UnitResult) string {
 		}
 		fmt.Fprintf(&b, "%-60s obligations=%d ok=%d failed=%d gen=%.2fs", r.Spec.Fn, len(r.Obls), okc, bad, r.GenTime)
 		if r.Unsupported != "" {
-			fmt.Fprintf(&b, " OUTSIDE-SUBSET: %s", trunc(r.Unsupported, 300))
+			fmt.Fprintf(&b, " OUTSIDE-SUBSET: %s", trunc(r.Unsupported, 6000))
 		}
 		b.WriteString("\n")
 	}
